@@ -48,9 +48,15 @@ CHECKS = {
    technique="TLA+ model of the watchdog in discrete virtual time (spec/Heartbeat.tla, unit 1/4 s, wake-up phase as a constant) model-checked by TLC against clauses W1a-W5 (spec/HeartbeatProps.tla); every behaviour of the bounded model replayed on the real heartbeat_timer_task + reader under a virtual clock; recorded steps evaluated by TLC (spec/HeartbeatEval.tla)",
    text="All arrival patterns of up to 3-4 inbound frames (valid Heartbeat, right / wrong / missing TestReqID, TestRequest, out-of-sequence frames, application TestRequest attempts) at quarter-second granularity over a horizon of 4H+4 s for H in 1..3 and two wake-up phases are checked on the model and replayed on the real task; random patterns (silence, periodic below/at/above the interval, bursts, answers delayed 0..2 intervals) for H up to 30 s on the real code.",
    design_ref="5/C12", note="Tolerances: TestRequest in [H-1, H+1] s of silence, disconnect of a silent peer by 3H+3 s, a live peer = valid traffic with no silence >= H-1 s or every TestRequest answered in sequence within 2H-2 s (between the bounds both outcomes are accepted). An application that re-sends the registered TestReqID itself is not prevented (residual). " + COMMON_NOTE),
+ "C14": dict(engine="SendConc",
+   technique="TLA+ model of tasks interleaving at the library's suspension points (spec/SendConc.tla) checked exhaustively by TLC (deadlock freedom, S1-S5); all schedules of the REAL code over its gated suspension points enumerated by stateless DFS with a controlled scheduler; TLC (spec/SendConcEval.tla) evaluates S1-S5 on every execution and the real wires are compared with the model's reachable wires",
+   text="2-3 application senders, the heartbeat task's TestRequest and the reader servicing a ResendRequest / TestRequest / gap / application message: every interleaving over drain (FIFO wake-up), should_replay, on_state_change, on_message, on_logon; for each execution the wire order, per-task results, journal rows (exact bytes hash) and the stored counter are judged by TLC.",
+   design_ref="5/C14", note="Preemption only at awaits; the largest task set is capped (quick: 6000 executions) and reported as not exhaustive in the evidence. " + COMMON_NOTE),
 }
 
 ENGINES = [
+ dict(name="SendConc", path="spec/SendConc.tla spec/SendConcProps.tla spec/SendConcEval.tla harness/conc.py harness/props/c14.py",
+      serves_properties=["C14"], kind_free_text="TLA+ model of task interleavings + TLC + controlled-scheduler exploration of the real code"),
  dict(name="Heartbeat", path="spec/Heartbeat.tla spec/HeartbeatProps.tla spec/HeartbeatEval.tla harness/props/c12.py",
       serves_properties=["C12"], kind_free_text="TLA+ model of the heartbeat watchdog in discrete virtual time + TLC + replay on the real timer task"),
  dict(name="Net", path="spec/Net.tla spec/NetEval.tla spec/Endpoint.tla harness/netrun.py harness/netcheck.py",
